@@ -44,7 +44,9 @@ MOLS_RARE = [
 ]
 # chemically related neighbourhoods (ester / carbonate / carbamate / ether / amide): rules that look several bonds away
 MOLS_RELATED = ["COC(=O)OC", "CCOC(=O)OCC", "CNC(=O)OC", "CC(=O)OCC", "COC(=O)C=C", "COC(=O)c1ccccc1", "CC(=O)N(C)C", "CCOCC", "COCCOC", "CC(C)(C)O", "OCC(O)CO",
-                "C{[>][<]CC([>])C(=O)OC[<]}|gauss(150,0)|[H]", "C{[>][<]CCOC(=O)O[>][<]}|gauss(150,0)|C"]
+                "C{[>][<]CC([>])C(=O)OC[<]}|gauss(150,0)|[H]", "C{[>][<]CCOC(=O)O[>][<]}|gauss(150,0)|C",
+                # isotope labels (the typing of the label-free twin must not change after them)
+                "C{[>][<]C([2H])C[>][<]}|gauss(60,0)|C", "C{[>][<]CC[>][<]}|gauss(60,0)|C", "[13CH3]CO", "[2H]C([2H])([2H])O"]
 UNTYPABLE = ["C#N", "FC(F)F"]
 PARTIAL = ["N{[>][<]CC[>][<]}|gauss(30,0)|", "CC[$]", "{[][$]CC[$]; [$]C[$]}|gauss(30,0)|",
            # branching units whose other ends are capped while the right terminal's descriptor stays open; two open ends; open end
